@@ -374,6 +374,33 @@ fn c_extract(lib: &Lib, archive: &[u8], encrypted: bool, sched: &Sched, decline:
         let k = pem_of_key(0, true);
         (lib.reader_config_add_private_key)(cfg, k.as_ptr());
     }
+    // On fault-free schedules the same context (stream position left where it is) has been used before:
+    // by mla_roarchive_info (its answer is checked), or by a complete earlier extraction.
+    let pre = if sched.at.is_empty() { (archive.len() + decline.len()) % 3 } else { 0 };
+    if pre > 0 {
+        let saved = std::mem::take(&mut env.sched);
+        if pre == 1 {
+            let mut info = [0u8; 8];
+            let st = (lib.roarchive_info)(Some(read_cb), ctx, &mut info);
+            let version = u32::from_le_bytes([info[0], info[1], info[2], info[3]]);
+            let want_layers = archive.get(7).copied().unwrap_or(0xFF);
+            if st != 0 || version != 1 || info[4] != want_layers {
+                return ExtractResult { status: 0xBAD0_0000 | st, files: vec![(format!("mla_roarchive_info: status {st:#x}, version {version}, layers {:#x} (header says {want_layers:#x})", info[4]), Vec::new())], calls: env.calls, fault_seen: false };
+            }
+        } else {
+            let mut cfg0: *mut c_void = std::ptr::null_mut();
+            (lib.reader_config_new)(&mut cfg0);
+            if encrypted {
+                let k = pem_of_key(0, true);
+                (lib.reader_config_add_private_key)(cfg0, k.as_ptr());
+            }
+            (lib.roarchive_extract)(&mut cfg0, Some(read_cb), Some(seek_cb), Some(file_cb), ctx);
+            env.files.clear();
+        }
+        env.sched = saved;
+        env.calls = 0;
+        env.fault_seen = false;
+    }
     let status = (lib.roarchive_extract)(&mut cfg, Some(read_cb), Some(seek_cb), Some(file_cb), ctx);
     ExtractResult { status, files: env.files.clone(), calls: env.calls, fault_seen: env.fault_seen }
 }
@@ -876,7 +903,7 @@ pub fn run(started: Instant) -> i32 {
         rep,
         Meta {
             level: "model_checking",
-            rule: "libmla.so built from the working tree is loaded with dlopen and driven through its C entry points in worker processes. (1) every program of a bounded tree (and rich bases, flush placements) expressed as mla_archive_file_new/append/flush/close + mla_archive_close, with write callbacks that accept everything / 1 byte / 7 bytes per call; the collected bytes are read by the Rust ArchiveReader and compared with the reference model; where the program calls mla_archive_flush, the bytes the callback had received when it returned are repaired and must hold what had been appended (C14's oracle). (2) archives written by the Rust writer (4 layer combos) extracted with mla_roarchive_extract through read callbacks returning everything / 1 / 5 bytes and per-file write callbacks accepting partial buffers: exact bytes per file; also with a file callback that declines every other file (subset extraction: nothing for the declined ones); base programs also with non-ASCII, nested and spaced names in both directions. (3) for a subset of (1)/(2), at EVERY callback invocation index: accept 1 byte, accept half, or report failure - a reported failure must surface as a non-success status no later than the close; 37 NULL-pointer / cleared-handle / double-close / handle-after-failed-call placements and 7 calls refused for other reasons (duplicate name - the archive must then be the archive of the accepted calls -, close with a file open, level 12, malformed or wrong-kind key, extraction without / with a foreign key) must return a non-success status. No crash, signal or panic across the FFI in any case. states = distinct (case, schedule)".to_string(),
+            rule: "libmla.so built from the working tree is loaded with dlopen and driven through its C entry points in worker processes. (1) every program of a bounded tree (and rich bases, flush placements) expressed as mla_archive_file_new/append/flush/close + mla_archive_close, with write callbacks that accept everything / 1 byte / 7 bytes per call; the collected bytes are read by the Rust ArchiveReader and compared with the reference model; where the program calls mla_archive_flush, the bytes the callback had received when it returned are repaired and must hold what had been appended (C14's oracle). (2) archives written by the Rust writer (4 layer combos) extracted with mla_roarchive_extract through read callbacks returning everything / 1 / 5 bytes and per-file write callbacks accepting partial buffers: exact bytes per file; also with a file callback that declines every other file (subset extraction: nothing for the declined ones); base programs also with non-ASCII, nested and spaced names in both directions; on fault-free schedules the context has been used before, by mla_roarchive_info (version and layer bits checked against the header) or by a complete earlier extraction, and is not rewound by the caller. (3) for a subset of (1)/(2), at EVERY callback invocation index: accept 1 byte, accept half, or report failure - a reported failure must surface as a non-success status no later than the close; 37 NULL-pointer / cleared-handle / double-close / handle-after-failed-call placements and 7 calls refused for other reasons (duplicate name - the archive must then be the archive of the accepted calls -, close with a file open, level 12, malformed or wrong-kind key, extraction without / with a foreign key) must return a non-success status. No crash, signal or panic across the FFI in any case. states = distinct (case, schedule)".to_string(),
             exhaustive: true,
             bounds: json!({"cases": cs.len(), "null_placements": N_NULL}),
             assumptions: vec!["the C API only offers the default layers (compress+encrypt) for writing".to_string(), "scaled constants".to_string()],
